@@ -29,6 +29,8 @@ func runC05(c *eng.Ctx) {
 	// that is written, resolved under the lock that excludes a roll
 	c.Rule("R01.1", "K5")
 	ruleOffsetIdentity(c)
+	c.Rule("R05.5", "K2")
+	ruleEpochHistoryIsReadInFileOrder(c)
 	// ---- R05.1
 	c.Rule("R05.1", "K2")
 	ruleLogThenIndex(c)
